@@ -75,6 +75,15 @@ def shapes(tier, seed):
                 route = ('slice', 'vec', 'ops')[(ci + pi + len(s)) % 3] if q else None
                 for rt in ([route] if route else ['slice', 'vec', 'ops']):
                     out.append(('req', ci, pi, s, rt))
+    # blank values: a header that is present with an empty / all-space value (once or twice) is still present
+    for ci in range(len(CONFIGS)):
+        for pi in (3, 5):
+            present = PRESENCE[pi]
+            for sg in (('host', 'x-amz-date'), tuple(present)):
+                for k, vals in enumerate(('blank', 'spaces', 'twice-blank')):
+                    if q and (ci + pi + k) % 2:
+                        continue
+                    out.append(('req', ci, pi, sg, ('slice', 'vec', 'ops')[(ci + k) % 3], vals))
     # host itself unsigned / :authority signed instead
     for pi in (0, 1):
         out.append(('req', 0, pi, ('x-amz-date',), 'slice'))
@@ -149,8 +158,17 @@ def reference_ok(cfg, present, signed):
     return True
 
 
-def signed_request(present, signed):
-    headers = [(h, HVALS[h]) for h in present]
+def signed_request(present, signed, vals='plain'):
+    headers = []
+    for h in present:
+        if vals == 'plain' or h in ('host', 'x-amz-date'):
+            headers.append((h, HVALS[h]))
+        elif vals == 'blank':
+            headers.append((h, b''))
+        elif vals == 'spaces':
+            headers.append((h, b'   '))
+        else:
+            headers += [(h, b''), (h, b' ')]
     sl = sorted(signed)
     sig, _, _ = py_sign(bytes(32), 'GET', b'/', b'', headers, sl, b'', TS, SCOPE, is_key=True)
     authz = 'AWS4-HMAC-SHA256 Credential=AKID/%s, SignedHeaders=%s, Signature=%s' % (SCOPE, ';'.join(sl), sig)
@@ -158,12 +176,13 @@ def signed_request(present, signed):
 
 
 def run_shape(prog, shape, tier, seed, res):
-    _, ci, pi, signed, route = shape
+    _, ci, pi, signed, route = shape[:5]
+    vals = shape[5] if len(shape) > 5 else 'plain'
     cfg, present = CONFIGS[ci], PRESENCE[pi]
 
     def body(m, ctx):
         reqs = build_requirements(m, ctx, cfg, route)
-        rq = signed_request(present, signed)
+        rq = signed_request(present, signed, vals)
         prov = provider_ok(conc_bytes(bytes(32)))
         r, polls = run(m, rq, 'us-east-1', 'service', prov, instant(T0), reqs)
         return rq, r, prov
